@@ -3,6 +3,7 @@ from contextlib import contextmanager
 from typing import Type, Tuple, Dict, Set
 
 from yaml import SafeLoader, BaseLoader
+from yaml.nodes import MappingNode, SequenceNode
 from entrypoints import get_group_all as get_entrypoints
 from toposort import toposort_flatten
 
@@ -18,6 +19,24 @@ from ...interfaces._partial import Partial
 
 class COBalDLoader(SafeLoader):
     """Loader with access to COBalD configuration constructors"""
+
+    def flatten_mapping(self, node):
+        # PyYAML splices the content of ``<<`` values into ``node`` without ever
+        # looking at their tags: reject here what is rejected at any other position
+        for key_node, value_node in node.value:
+            if key_node.tag == "tag:yaml.org,2002:merge":
+                merged = (
+                    value_node.value
+                    if isinstance(value_node, SequenceNode)
+                    else [value_node]
+                )
+                for merged_node in merged:
+                    if (
+                        isinstance(merged_node, MappingNode)
+                        and merged_node.tag not in self.yaml_constructors
+                    ):
+                        self.construct_undefined(merged_node)
+        super().flatten_mapping(node)
 
 
 def add_constructor_plugins(entry_point_group: str, loader: Type[BaseLoader]) -> None:
